@@ -308,6 +308,28 @@ def run(tier, seed):
             res.violations.append({"kind": "predicate", "line": line, "answers": answers, "why": "the control program of a cell the type-state table permits no longer compiles (%s)" % ", ".join(codes[:3])})
         elif want not in ("permit", "reject"):
             res.corr_breaks.append({"line": line, "answers": answers})
+    # the permitted transitions on an EMPTY region (a container that never allocated: `new_locked()`, an empty message decrypted into a
+    # locked buffer, `from_slice_into_locked(b"")`) and on one shrunk to zero: every road through the state graph compiles and runs
+    EMPTY_MK = ["HeapBytes::new_locked().unwrap()", "HeapBytes::from_slice_into_locked(b\"\").unwrap()", "LockedBytes::default()",
+                "{ let mut r = HeapBytes::from_slice_into_locked(&[1u8, 2, 3]).unwrap(); r.resize(0, 0); r }"]
+    EMPTY_PATHS = [".munlock().unwrap().mprotect_noaccess().unwrap().mprotect_readwrite().unwrap().mlock().unwrap()",
+                   ".mprotect_readonly().unwrap().munlock().unwrap().mprotect_noaccess().unwrap().mprotect_readonly().unwrap().mlock().unwrap().mprotect_readwrite().unwrap()",
+                   ".munlock().unwrap().mprotect_readonly().unwrap().mprotect_readwrite().unwrap().mprotect_noaccess().unwrap().mprotect_readwrite().unwrap()",
+                   ".munlock().unwrap().munlock().unwrap().mlock().unwrap().mprotect_readonly().unwrap()"]
+    ejobs = []
+    for mi, mk in enumerate(EMPTY_MK):
+        for pi, path in enumerate(EMPTY_PATHS):
+            src = "#![allow(unused)]\nuse dryoc::protected::*;\nuse dryoc::types::*;\nfn main() {\n    let x = %s;\n    let y = x%s;\n    std::hint::black_box(y.len());\n    drop(y);\n}\n" % (mk, path)
+            ejobs.append(("e_%d_%d" % (mi, pi), src, rlib, deps, outdir, True))
+    with ThreadPoolExecutor(max_workers=NPROC) as ex:
+        eouts = list(ex.map(compile_one, ejobs))
+    for (name, compiled, codes, ran), job in zip(eouts, ejobs):
+        res.evaluations += 1
+        res.count("empty-region/permitted-path")
+        res.distinct.add(name + str(compiled))
+        if not compiled or ran != 0:
+            res.violations.append({"kind": "predicate", "line": "typestate_empty %s" % name, "answers": {"compiled": compiled, "error_codes": codes[:4], "exit": ran, "program": job[1]},
+                                   "why": "a chain of permitted transitions on an empty region %s" % ("does not compile" if not compiled else "failed at run time (exit %s)" % ran)})
     if harness_errors is not None:
         res.corr_breaks.append({"line": "runner-build", "answers": {"compiler_errors": harness_errors, "note": "the crate compiles, the runner does not"}})
     res.extra["exhaustive"] = True
